@@ -18,7 +18,8 @@ func init() {
 		Explanation: "Decides the property structurally on the SSA of every (*Funcs) method: R1 bijection Interface methods <-> Funcs fields M_ (same signature) <-> methods declared on *Funcs; " +
 			"R2 the call through field M_ is dominated by `f != nil` and `f.M_ != nil` for the SAME field, passes the parameters in order and returns the results unchanged; " +
 			"R3 every other return is (zero..., f.newError(...)) or ErrorSeq(f.newError(...)), and newError dereferences f only under f != nil; " +
-			"R4 no other potentially panicking instruction exists in these methods (index, slice, type assertion, division, explicit panic, unguarded field access of f).",
+			"R4 no other potentially panicking instruction exists in these methods (index, slice, type assertion, division, explicit panic, unguarded field access of f). " +
+			"R4 the methods of Funcs write no package-level state.",
 		NotDecided: "nothing of the statement is left out: the rule set decides the property for the code as written (assuming the function values themselves, supplied by the user of Funcs, do not panic, and that no other goroutine mutates the table during a call).",
 		Technique:  "static analysis: SSA dominance (guard on the same field), argument/result provenance, go/types bijection Interface<->Funcs, panic-site inventory",
 	})
